@@ -64,8 +64,9 @@ COMMON = ("Program = slip.List tree built by the typed generator zzGen from the 
 def main():
     q2 = lambda k0,s0,k1,v: (k0*7 + s0*3 + k1) % 10 == 0
     quick = depth1([0,1,2]) + depth2([0], q2)
-    t3 = lambda k0,s0,k1,s1,k2,v: (k0*31 + s0*17 + k1*7 + s1*3 + k2) % 150 == 0
-    thorough = depth1([0,1,2]) + depth2([0,1]) + depth3([0], t3)
+    t3 = lambda k0,s0,k1,s1,k2,v: (k0*31 + s0*17 + k1*7 + s1*3 + k2) % 300 == 0
+    t2 = lambda k0,s0,k1,v: v == 0 or (k0 + s0 + k1) % 2 == 0
+    thorough = depth1([0,1,2]) + depth2([0,1], t2) + depth3([0], t3)
     findings = [[30,3,8,0,-1,0],[30,3,28,0,-1,0],[13,0,-1,0,-1,0],[8,0,39,0,2,0],[19,0,39,0,-1,0],[6,2,39,0,-1,0],
                 [36,0,-1,0,-1,0],[33,0,-1,0,-1,0],[41,0,-1,0,-1,0]]
     spec = [
@@ -73,7 +74,7 @@ def main():
       "cases": {"quick": quick, "thorough": thorough}, "reach": ["compared", "agreed"],
       "max_depth": 400, "max_steps": 20000000, "solver_timeout_ms": 10000, "carves": [], "overrides": OVR,
       "note": COMMON + " Bounds: quick = every kind with leaf operands x 3 variants (%d) + 1/10 of all well-typed depth-2 skeletons, "
-              "every (kind, slot) with several child kinds (%d); thorough = all %d depth-2 skeletons x 2 variants + a 1/150 sample of "
+              "every (kind, slot) with several child kinds (%d); thorough = all %d depth-2 skeletons (half of them in a second variant) + a 1/300 sample of "
               "the %d depth-3 skeletons. Outside: depth >= 4, floats/bignums, user macros, &optional/&key (C04), non-local exits (C07)."
               % (len(depth1([0,1,2])), len(depth2([0], q2)), len(depth2([0])), len(depth3([0]))),
       "assumptions": ["dotimes counts <= 3, do/do* iterations <= 3, <= 12 calls per program"]},
